@@ -179,7 +179,11 @@ def run(tier, seed, replay=None):
             dt = os.path.join(root, rng.choice(["", "a", "b", "c"]))
             os.makedirs(dt, exist_ok=True)
             for nm, text, lang_name in (("geometry.h", twin_c, "C"), ("geometry.hpp", twin_c, "C++"), ("shape.js", twin_js, "JavaScript"),
-                                        ("shape.ts", twin_js, "TypeScript"), ("__init__.py", "", "Python"), ("stub.js", "", "JavaScript")):
+                                        ("shape.ts", twin_js, "TypeScript"), ("__init__.py", "", "Python"), ("stub.js", "", "JavaScript"),
+                                        # extensions that differ only in case are different extensions: x.c is C, X.C is C++,
+                                        # MAIN.PY is nothing Pygments knows (seeded change C06-11: lexer remembered per lower-cased extension)
+                                        ("util.c", twin_c, "C"), ("Widget.C", twin_c, "C++"), ("Legacy.H", twin_c, "C++"),
+                                        ("MAIN.PY", "def f():\n    x = 1\n    return x\n", None), ("main.py", "def f():\n    x = 1\n    return x\n", "Python")):
                 with open(os.path.join(dt, nm), "w") as f:
                     f.write(text)
                 twins[os.path.relpath(os.path.join(dt, nm), root)] = lang_name
@@ -216,6 +220,11 @@ def run(tier, seed, replay=None):
                 reports.append(rep)
                 for tp, tl in twins.items():
                     e = rep["codebase"]["files"].get(tp)
+                    if tl is None:
+                        if e is not None:
+                            chk.violation({"tree": t, "file": tp, "order": perm},
+                                          f"{tp} is reported (as {e.get('language')}) although its name is not one the lexer table knows")
+                        continue
                     if e is not None and e.get("language") != tl:
                         chk.violation({"tree": t, "file": tp, "order": perm},
                                       f"{tp} (one of several byte-identical files) is reported as {e.get('language')}, its name says {tl}")
